@@ -433,6 +433,9 @@ def enc_tree(ctx, n):
     return {'unknown_node': type(n).__name__}
 
 
+_UNHASHABLE = re.compile(r"unhashable type: '[A-Za-z_.]+'")
+
+
 def canon(j):
     """canonical form for comparison: sets / missing / extra sorted"""
     if isinstance(j, list):
@@ -451,4 +454,8 @@ def canon(j):
                 continue
             out[k] = v
         return out
+    if isinstance(j, str) and 'unhashable type: ' in j:
+        # CPython names the INNERMOST unhashable object (`hash(((1, [2]),))` -> 'list'); which nested object that is is the
+        # interpreter's business, not pane's: compared up to that name
+        return _UNHASHABLE.sub("unhashable type: '_'", j)
     return j
